@@ -960,6 +960,210 @@ def stim_controlled_search(ctx, base):
     ctx.ob("C12_search_stim_controlled", len(ctx.failures) == bad0, "search", "")
 
 
+def result_order_search(ctx, base):
+    """qubit ORDER of the views of a Clifford result: samples / frequencies / registers follow the order
+    of the measurement gates, `probabilities(qubits)` the REQUESTED order, for every ordered subset of
+    the measured qubits (all permutations of all subsets), against the state-vector marginal."""
+    import itertools as it
+
+    from qibo import gates
+
+    rng = ctx.rng
+    np.random.seed(rng.randrange(2**32))
+    bad0 = len(ctx.failures)
+    be = base.cliff_backend()
+    cases = [(3, [gates.X(2)], [[2, 0]]), (3, [gates.X(2)], [[2], [0]]), (3, [gates.X(0), gates.H(1)], [[1, 2, 0]])]
+    for i in range(60 if ctx.thorough else 22):
+        n = rng.randint(2, 5)
+        gs = [gates.X(q) for q in range(n) if rng.random() < 0.5]
+        for _ in range(rng.randint(0, 4)):
+            gs.append(rng.choice([lambda: gates.CNOT(*rng.sample(range(n), 2)), lambda: gates.SWAP(*rng.sample(range(n), 2)),
+                                  lambda: gates.X(rng.randrange(n)), lambda: gates.Z(rng.randrange(n))])())
+        if i % 3 == 0:  # a superposed part: support checks
+            gs += [gates.H(rng.randrange(n)), gates.CNOT(*rng.sample(range(n), 2))]
+        measured = rng.sample(range(n), rng.randint(2, min(n, 4)))
+        if sorted(measured) == measured:
+            measured.reverse()
+        cuts = sorted(rng.sample(range(1, len(measured)), rng.randint(0, min(2, len(measured) - 1))))
+        groups = [measured[a:b] for a, b in zip([0] + cuts, cuts + [len(measured)])]
+        cases.append((n, gs, groups))
+    for n, gs, groups in cases:
+        measured = [q for g in groups for q in g]
+        mgates = [gates.M(*g) for g in groups]
+        descr = [base.gate_src(g) for g in gs] + [f"gates.M({', '.join(map(str, g))})" for g in groups]
+        ctx.case(("result-order", n, tuple(descr)))
+        psi = base.sv_state(n, gs)
+        born = np.abs(psi) ** 2
+
+        def marginal(qs):
+            out = np.zeros(2 ** len(qs))
+            for i, p in enumerate(born):
+                idx = 0
+                for q in qs:
+                    idx = 2 * idx + ((i >> (n - 1 - q)) & 1)
+                out[idx] += p
+            return out
+
+        head = base.HEAD + f"c = Circuit({n})\nfor g in [{', '.join(descr)}]:\n    c.add(g)\n" \
+            "np.random.seed(3)\nr = CliffordBackend('numpy').execute_circuit(c, nshots=64)\n"
+        try:
+            r = be.execute_circuit(base.build(n, base.regen(gs) + mgates), nshots=64)
+            S = np.asarray(r.samples()).astype(int)
+            deterministic = np.max(marginal(measured)) > 1 - 1e-9
+            ok_s = S.shape == (64, len(measured)) and all(marginal(measured)[int("".join(map(str, row)), 2)] > 1e-9 for row in S)
+            freq = r.frequencies()
+            ok_f = sum(freq.values()) == 64 and all(marginal(measured)[int(k, 2)] > 1e-9 for k in freq)
+            regs = r.frequencies(registers=True)
+            ok_r = all(all(marginal(list(m.target_qubits))[int(k, 2)] > 1e-9 for k in regs[m.register_name]) for m in mgates)
+        except Exception as e:  # noqa: BLE001
+            ok_s = ok_f = ok_r = False
+            deterministic = False
+            ctx.stat(f"result_order_raises_{type(e).__name__}")
+        if not (ok_s and ok_f and ok_r):
+            ctx.fail("views:order:samples" if not ok_s else "views:order:frequencies",
+                     f"samples / frequencies / register frequencies of {descr} contain an outcome of Born probability zero in the order of the measurement gates",
+                     head + f"n, measured = {n}, {measured}\n"
+                     "from qibo import Circuit as _C\nu = _C(n)\n"
+                     f"for g in [{', '.join(base.gate_src(g) for g in gs)}]:\n    u.add(g)\n"
+                     "psi = np.asarray(NumpyBackend().execute_circuit(u).state()) if u.queue else np.eye(2 ** n)[:, 0]\n"
+                     "for row in np.asarray(r.samples()).astype(int):\n    p = sum(abs(psi[i]) ** 2 for i in range(2 ** n) if all(((i >> (n - 1 - q)) & 1) == b for q, b in zip(measured, row)))\n    assert p > 1e-9, row\n"
+                     "for k in r.frequencies():\n    p = sum(abs(psi[i]) ** 2 for i in range(2 ** n) if all(((i >> (n - 1 - q)) & 1) == int(b) for q, b in zip(measured, k)))\n    assert p > 1e-9, k\n",
+                     broken=["C12_search_result_order"])
+            continue
+        subsets = [list(perm) for k in range(1, len(measured) + 1) for comb in it.combinations(measured, k) for perm in it.permutations(comb)]
+        if len(subsets) > 40:
+            full = [list(p) for p in it.permutations(measured)]
+            subsets = rng.sample(full, min(len(full), 14)) + rng.sample(subsets, 26)
+        for qs in subsets + [None]:
+            ctx.stat("result_order_probabilities_" + ("all" if qs is None else "full" if len(qs) == len(measured) else "subset"))
+            want = marginal(measured if qs is None else qs)
+            try:
+                got = np.asarray(r.probabilities(None if qs is None else list(qs)), dtype=float).reshape(-1)
+                ok = got.shape == want.shape and abs(got.sum() - 1) < 1e-9 and np.all(got[want < 1e-9] < 1e-9)
+                if ok and deterministic:
+                    ok = np.allclose(got, want, atol=1e-9)
+                got_s = got.tolist()
+            except Exception as e:  # noqa: BLE001
+                ok, got_s = False, f"{type(e).__name__}: {e}"
+            if not ok:
+                ctx.fail("views:probabilities:qubit-order",
+                         f"Clifford.probabilities({qs}) of {descr}: probability on an outcome of Born probability zero (requested order {qs}, measured order {measured})",
+                         head + "from qibo import Circuit as _C\nu = _C(%d)\n" % n
+                         + f"for g in [{', '.join(base.gate_src(g) for g in gs)}]:\n    u.add(g)\n"
+                         f"n, qs = {n}, {measured if qs is None else list(qs)}\n"
+                         "psi = np.asarray(NumpyBackend().execute_circuit(u).state()) if u.queue else np.eye(2 ** n)[:, 0]\n"
+                         "want = np.zeros(2 ** len(qs))\nfor i, a in enumerate(psi):\n    idx = 0\n    for q in qs:\n        idx = 2 * idx + ((i >> (n - 1 - q)) & 1)\n    want[idx] += abs(a) ** 2\n"
+                         f"got = np.asarray(r.probabilities({None if qs is None else list(qs)}), dtype=float).reshape(-1)\n"
+                         "assert got.shape == want.shape and np.all(got[want < 1e-9] < 1e-9), (got.tolist(), want.tolist())\n",
+                         expected=str(want.tolist()), observed=str(got_s)[:300], broken=["C12_search_result_order"])
+                break
+    ctx.ob("C12_search_result_order", len(ctx.failures) == bad0, "search", "")
+
+
+def large_register_search(ctx, base):
+    """registers beyond 128 / 256 rows: determined, correlated and collapsing measurements on
+    n in {130, 160, 200, 260} qubits against closed-form expectations (basis states made by X layers and
+    CNOT/SWAP permutations: every bit is known; GHZ chains with X masks: one coin decides every bit), and
+    the measurement of a few high qubits against the Lean model's bit-exact run (driver command M)."""
+    from qibo import gates
+
+    rng = ctx.rng
+    np.random.seed(rng.randrange(2**32))
+    bad0 = len(ctx.failures)
+    be = base.cliff_backend()
+    sizes = [130, 160, 200, 260] if ctx.thorough else [130, rng.choice([160, 200]), 260]
+    lines, meta = [], []
+    for n in sizes:
+        for kind in ("basis", "ghz", "collapse"):
+            ctx.case(("large", n, kind))
+            ctx.stat(f"large_{kind}_n{n}")
+            mask = [rng.random() < 0.55 for _ in range(n)]
+            if kind == "basis":
+                mask = [True] * n if rng.random() < 0.5 else mask
+            gs, src = [], []
+            if kind in ("basis", "collapse"):
+                bits = list(mask)
+                for q in range(n):
+                    if mask[q]:
+                        gs.append(gates.X(q))
+                src.append(f"mask = {[int(b) for b in mask]}\nfor q in range(n):\n    if mask[q]:\n        c.add(gates.X(q))\n")
+                pairs = [tuple(rng.sample(range(n), 2)) for _ in range(12)]
+                for a, b in pairs:
+                    gs.append(gates.CNOT(a, b))
+                    bits[b] = bits[b] ^ bits[a]
+                src.append(f"for a, b in {pairs}:\n    c.add(gates.CNOT(a, b))\n")
+                expect = lambda row, bits=bits: all(int(row[q]) == int(bits[q]) for q in range(n))  # noqa: E731
+                exp_descr = "the bits of the basis state"
+            else:
+                gs.append(gates.H(0))
+                for q in range(n - 1):
+                    gs.append(gates.CNOT(q, q + 1))
+                for q in range(n):
+                    if mask[q]:
+                        gs.append(gates.X(q))
+                src.append("c.add(gates.H(0))\nfor q in range(n - 1):\n    c.add(gates.CNOT(q, q + 1))\n"
+                           f"mask = {[int(b) for b in mask]}\nfor q in range(n):\n    if mask[q]:\n        c.add(gates.X(q))\n")
+                expect = lambda row, mask=mask: len({int(row[q]) ^ int(mask[q]) for q in range(n)}) == 1  # noqa: E731
+                exp_descr = "a GHZ outcome (all bits equal after removing the X mask)"
+            order = list(range(n))
+            if rng.random() < 0.5:
+                order.reverse()
+            nshots = 3
+            py = base.HEAD + f"n = {n}\nc = Circuit(n)\n" + "".join(src)
+            try:
+                if kind == "collapse":
+                    hi = rng.sample(range(n // 2, n), 3)
+                    mg = gates.M(*hi, collapse=True)
+                    c = base.build(n, gs + [mg, gates.M(*order)])
+                    r = be.execute_circuit(c, nshots=nshots)
+                    S = np.asarray(r.samples()).astype(int)
+                    mids = [np.asarray(x).reshape(-1).astype(int) for x in mg.result.samples()]
+                    ok = all(all(int(m[j]) == int(bits[q]) for j, q in enumerate(hi)) for m in mids)
+                    py += f"mg = gates.M({', '.join(map(str, hi))}, collapse=True)\nc.add(mg)\n"
+                else:
+                    c = base.build(n, gs + [gates.M(*order)])
+                    r = be.execute_circuit(c, nshots=nshots)
+                    S = np.asarray(r.samples()).astype(int)
+                    ok = True
+                rows = [{q: row[j] for j, q in enumerate(order)} for row in S]
+                ok = ok and S.shape == (nshots, n) and all(expect(row) for row in rows)
+                obs = "".join(str(int(rows[0][q])) for q in range(n)) if len(rows) else ""
+            except Exception as e:  # noqa: BLE001
+                ok, obs = False, f"{type(e).__name__}: {e}"
+            if not ok:
+                test = f"c.add(gates.M(*{order}))\nnp.random.seed(5)\nr = CliffordBackend('numpy').execute_circuit(c, nshots=3)\nS = np.asarray(r.samples()).astype(int)\norder = {order}\n"
+                if kind == "ghz":
+                    test += "for row in S:\n    assert len({int(row[j]) ^ mask[q] for j, q in enumerate(order)}) == 1, row.tolist()\n"
+                else:
+                    test += f"bits = {[int(b) for b in bits]}\nfor row in S:\n    assert all(int(row[j]) == bits[q] for j, q in enumerate(order)), row.tolist()\n"
+                    if kind == "collapse":
+                        test += f"for m in mg.result.samples():\n    assert [int(x) for x in np.asarray(m).reshape(-1)] == {[int(bits[q]) for q in hi]}\n"
+                ctx.fail(f"large-register:{kind}", f"{n}-qubit register ({kind}): a measured outcome is not {exp_descr} (Born probability zero)", py + test,
+                         expected=exp_descr, observed=str(obs)[:300], broken=["C12_search_large_register"])
+            # the Lean model on the same tableau: a few qubits, high ones included
+            if kind != "collapse" and (n in (130, 260) or ctx.thorough):
+                T = np.asarray(be.execute_circuit(base.build(n, base.regen(gs))).symplectic_matrix).astype(np.uint8)
+                qs = [n - 1, rng.randrange(n // 2, n), rng.randrange(0, n // 2), n - 2]
+                out = np.asarray(be.sample_shots(np.array(T, copy=True), tuple(qs), n, 1)).astype(int).reshape(-1)
+                lines.append(f"M {n} {base.tab_tokens(T)} {len(qs)} " + " ".join(map(str, qs)) + " " + " ".join(str(int(b)) for b in out))
+                meta.append((n, kind, qs, out, py))
+    outs = run_driver(lines, driver=DRIVER) if lines else []
+    badm = 0
+    for (n, kind, qs, out, py), o in zip(meta, outs):
+        model = o.split()[0]
+        real = "".join(str(int(b)) for b in out)
+        ctx.stat("large_model_measure")
+        if model != real:
+            badm += 1
+            ctx.fail(f"large-register:{kind}:model", f"{n}-qubit register ({kind}): sample_shots on qubits {qs} returns {real}, the tableau model (random bits forced) {model}",
+                     py + f"r = CliffordBackend('numpy').execute_circuit(c)\nout = CliffordBackend('numpy').sample_shots(np.array(r.symplectic_matrix), {tuple(qs)}, n, 1)\n"
+                     f"got = ''.join(str(int(b)) for b in np.asarray(out).reshape(-1))\n"
+                     + ("assert got == %r, got\n" % model if kind == "basis" else f"mask = mask\nassert len({{int(b) ^ mask[q] for b, q in zip(got, {qs})}}) == 1, got\n"),
+                     expected=model, observed=real, broken=["C12_corr_large_register"])
+    ctx.ob("C12_corr_large_register", badm == 0, "correspondence", f"{badm} disagreements" if badm else f"{len(meta)} measurements on registers up to 260 qubits")
+    ctx.ob("C12_search_large_register", len([f for f in ctx.failures[bad0:] if not f["key"].endswith(":model")]) == 0, "search", "")
+
+
 def run_suites(ctx, base):
     cases = synth_correspondence(ctx, base)
     bm20_correspondence(ctx, base, cases)
@@ -967,4 +1171,6 @@ def run_suites(ctx, base):
     accept_correspondence(ctx, base)
     controlled_refusal_search(ctx, base)
     repeated_correspondence(ctx, base)
+    result_order_search(ctx, base)
+    large_register_search(ctx, base)
     stim_controlled_search(ctx, base)
